@@ -35,6 +35,8 @@ Transform(v, b) ==
   /\ IF vars[v].weak THEN rej' = "weak" /\ UNCHANGED vars
      ELSE IF vars[v].dist = "none" THEN rej' = "no_distribution" /\ UNCHANGED vars
      ELSE IF TName(v) \in DOMAIN vars THEN rej' = "name_taken" /\ UNCHANGED vars
+     \* a bijector that cannot be constructed (wrong arguments, ...): the call raises and changes nothing
+     ELSE IF b = "<unconstructible>" THEN rej' = "bad_bijector" /\ UNCHANGED vars
      ELSE LET t == Inv(b, vars[v].val)
               new == [val |-> t, dist |-> vars[v].dist, tdist |-> TRUE, bij |-> b, param |-> vars[v].param,
                       obs |-> FALSE, weak |-> FALSE, via |-> ""]
